@@ -5,7 +5,7 @@ PROP = {
     "rule": ("streams of 1-200 access-log records (1-400 for the production-threshold unit): methods GET/POST/DELETE, URLs from 1-4 templates "
              "over hosts api.com/svc.io/x.api.com with constant segments and id slots, single records and bursts of consecutive ids long enough to "
              "cross maxSplitThreshold (2,3,5 and the plugin's real 50) at one to three depths, id values colliding with constant names, trailing "
-             "slashes, statuses, durations 0..1e6, ms time stamps with duplicates and same-second values, consumer tags incl. empty, well- and "
+             "slashes, (in one case of 25) doubled slashes, statuses, durations 0..1e6, ms time stamps with duplicates and same-second values, consumer tags incl. empty, well- and "
              "ill-formed interceptor strings, internal flags; known-endpoint lists with declared parameters / literals / a wildcard; two random "
              "partitions into batches (empty batches allowed) and optional restarts (new State reading the JSON file, tree rebuilt from the known "
              "endpoints) at any boundary. Each case is run four ways through the exported API in the order runner.go uses it: single batch, two "
@@ -13,7 +13,8 @@ PROP = {
              "key disappeared after a later batch (re-keying after a convergence of the URL tree) or a restart happened with a non-empty state; "
              "distinct = distinct canonical JSON of the whole case"),
     "assumptions": [
-        "URLs are host[/segment]* with non-empty segments and no `*` or `{...}` segments in traffic (the tree rejects empty segments with an error and Run then drops the whole batch; see report)",
+        "traffic URLs are host[/segment]* without `*` or `{...}` segments; empty segments (`//`) occur in a small share of the cases and are expected to be counted like any other URL",
+        "the four classifiers use observation points that do not change behaviour: a forwarding wrapper around the URL tree (urltree.URLTreeI) that notes convergences inside Insert and lookups that miss a just-inserted URL, and the error returned by Run/GetUpdatedAggregations",
         "methods, consumer tags and URLs do not contain the persistence delimiter `:::`; time stamps are non-negative milliseconds",
         "DecodeRecords (msgpack via cgo pointers) is not driven; records enter at discovery.Run / GetUpdatedAggregations",
         "State keeps its aggregate unexported: the stateful run is observed through the JSON state file (one-second time resolution), the exact comparison uses GetUpdatedAggregations",
@@ -26,15 +27,16 @@ PROP = {
         {"pkg": "c15", "test": "TestWitnessF1SilentConvergence", "kind": "plain"},
         {"pkg": "c15", "test": "TestWitnessF2ConstantBesideParameter", "kind": "plain"},
         {"pkg": "c15", "test": "TestWitnessF3LostTerminalValue", "kind": "plain"},
+        {"pkg": "c15", "test": "TestWitnessF4BatchRefused", "kind": "plain"},
     ],
     "technique": ("property-based testing (rapid): conservation against an independent fold over the raw records, metamorphic batch-invariance "
                   "(single batch vs two random partitions), persistence round trip and restart histories through the real state file"),
     "level_text": ("generated record streams are pushed through the real aggregation code batch by batch; the final statistics are compared with an "
                    "independent fold over the raw records (totals, per-status and per-method totals, per-endpoint counts/min/max/means under every "
                    "admissible attribution, per-consumer tables, interceptor times), with the single-batch result and a second partition, with the "
-                   "converted/persisted form and with a run that restarts from the state file. Two classes of batch-dependent results are attributed "
-                   "to listed findings by classifiers (observed unreported tree convergence; exact agreement with an as-implemented attribution "
-                   "model). This is search, not proof"),
+                   "converted/persisted form and with a run that restarts from the state file. Batch-dependent results are attributed to listed findings only by classifiers (observed unreported tree "
+                   "convergence; exact agreement with an as-implemented attribution model; observed lookup miss of an inserted URL; batch refused for a "
+                   "URL with an empty segment), each with a witness unit; conservation is never waived. This is search, not proof"),
     "level_note": ("URL shapes are template-based; thresholds 2/3/5 explore the tree structure, a separate unit uses only the production threshold 50; "
                    "restart histories are checked for conservation only; fluent-bit decoding and the engine notification of failed transactions are outside"),
     "design_ref": "DESIGN.md section 2, C15",
